@@ -955,6 +955,17 @@ class CallMixin:
             raise Unsupported("is_instance of %s" % v.ty)
         return sym.mk_bool(self.heap.read("object", "__class__", TInt, v.t).t == self.class_id(node.args[1].value))
 
+    def sp_pre_existing(self, node, env):
+        """pre_existing(obj): the reference denotes an object that existed when the function under verification was entered
+        (objects created on the path have negative references, interp.new_object).  Lets a postcondition speak about the
+        values of a dict under a quantifier, where no heap read attaches the well-formedness fact by itself."""
+        v = self.evalv(node.args[0], env)
+        if isinstance(v.ty, TOpt):
+            v = sym.opt_val(v)
+        if not isinstance(v.ty, TRef):
+            raise Unsupported("pre_existing of %s" % v.ty)
+        return sym.mk_bool(v.t >= 0)
+
     def sp_isa_opaque(self, node, env):
         """isa_opaque(x, 'Name'): the opaque (Any / Optional[Any]) value x is an instance of the external class Name - the
         same uninterpreted predicate that isinstance(x, mod.Name) evaluates to in code (bi_isinstance); None is no instance"""
